@@ -152,7 +152,7 @@ def run(ctx):
             if i < 3:
                 ctx.sample({"program": prog})
         # spec -> code: every session TLC explores on the RawCopy part of the model's universe (machine clauses checked on the design there)
-        uprogs, ukw, sessions, _ = speccode.explore(ctx, focus="C14", part=speccode.part_of(ctx, 4 if quick else 4))
+        uprogs, ukw, sessions, _ = speccode.explore(ctx, focus="C14", part=speccode.part_of(ctx, 8 if quick else 6))
         nt += speccode.drive(camp, uprogs, ukw, sessions)
         vs = camp.validate()
         def conf(v, m):
